@@ -5,7 +5,7 @@
    (false: the pinned Append); [observe_member st k] is everything pool member k reports: topology, indices,
    materials, attribute names and all attribute values, read through its slices. *)
 From Coq Require Import List NArith ZArith Arith Lia.
-From PF Require Import Mesh.Heap Mesh.HeapProofs Mesh.HeapCommute Mesh.HeapRefine.
+From PF Require Import Mesh.Heap Mesh.HeapProofs Mesh.HeapCommute Mesh.HeapRefine Mesh.HeapRefineAppend.
 From PF Require Mesh.Pure.
 Import ListNotations.
 
@@ -129,6 +129,39 @@ Theorem heap_refines_pure_exec_partial : forall (grow : nat -> nat -> nat) h p o
   agrees (exec grow true h p o) (pure_exec o (map (abs h) p)).
 Proof. exact heap_refines_pure_partial_proof. Qed.
 Print Assumptions heap_refines_pure_exec_partial.
+
+(* Append, partial (attributes missing): topology, indices — the renumbering of the appended part by the receiver's
+   vertex count included, which is the one in-place write of the repaired Append — and materials of the mesh the heap
+   operation creates are those of Pure.append on the operands' values.  [idx_nonneg]: the appended mesh's indices are
+   not negative (Go ints; the pure model keeps them as nat).
+   FULL statement: abs h' r = pm.  Missing: appendData (zero padding, sorted insertion) against Pure.append_attrs. *)
+Theorem append_refines_pure_partial : forall (grow : nat -> nat -> nat) h p i j m o,
+  0 < length h -> pool_ok (length h) p -> Forall (mesh_wf h) p ->
+  nth_error p i = Some m -> nth_error p j = Some o -> idx_nonneg h (idx o) ->
+  match exec grow true h p (OAppend i j), Pure.step Pure.OAppend [abs h m; abs h o] with
+  | RNew h' r, Pure.Ok [pm] =>
+      Pure.topology (abs h' r) = Pure.topology pm /\ Pure.indices (abs h' r) = Pure.indices pm /\
+      Pure.materials (abs h' r) = Pure.materials pm
+  | RErr Declared, Pure.Declared => True
+  | _, _ => False
+  end.
+Proof. exact append_refines_pure_partial_proof. Qed.
+Print Assumptions append_refines_pure_partial.
+
+Example c01_example_append_refine :
+  let st := run grow_double true refine_ops 4 in
+  let p := map (load (maps_of st)) (pool st) in
+  (exists m, nth_error p 3 = Some m /\ idx_nonneg (heap_of st) (idx m)) /\
+  match Pure.step Pure.OAppend (map (abs (heap_of st)) [nth 3 p (load [] nilg); nth 3 p (load [] nilg)]) with
+  | Pure.Ok [pm] => Pure.indices pm = [0; 1; 2; 2; 1; 3; 4; 5; 6; 6; 5; 7] /\
+                    Pure.materials pm = [(1, 7%N); (1, 8%N); (1, 7%N); (1, 8%N)]
+  | _ => False
+  end /\
+  match exec grow_double true (heap_of st) p (OAppend 3 3) with
+  | RNew h' r => Pure.indices (abs h' r) = [0; 1; 2; 2; 1; 3; 4; 5; 6; 6; 5; 7]
+  | _ => False
+  end.
+Proof. exact append_refine_example. Qed.
 
 (* Every pool member has ONE value in the pure model, for ever: [pure_value st k] = the abstraction of what member k
    reports in state st does not depend on the time at which it is read.  (This is what makes "the pure model's mesh
